@@ -99,8 +99,9 @@ PROPS = {
         'lean': ['H8.Props.C11'],
         'gen': ['consts'],
         'runs': [{'mode': 'elf', 'shards': 16}],
-        'rule': 'generated ELF32-BE executables: 1-4 ascending non-overlapping PT_LOAD segments with arbitrary offsets / sizes (filesz <= memsz, incl. zero-size and .bss-only), interleaved non-load program headers (also trailing), shuffled section-header order, .got of 0-64 entries anywhere inside a segment with entry values incl. ones whose sum carries into the top byte / wraps, .stack, .symtab/.strtab; loaded by the real elf::load into a fresh Cpu; all non-zero 64-byte DRAM blocks below the image end (and that no other array changed) compared with Model (exact) and Spec (expected image). distinct non-trivial = distinct files.',
-        'assumptions': ['structurally valid files only (the statement\'s domain); truncated / malformed files are out of scope of C11 and make the loader return an error or panic'],
+        'rule': 'generated ELF32-BE executables: 1-4 ascending non-overlapping PT_LOAD segments with arbitrary offsets / sizes (filesz <= memsz, incl. zero-size and .bss-only), interleaved non-load program headers (also trailing), shuffled section-header order, p_paddr equal to p_vaddr or (every fifth file) above it, .got of 0-64 entries anywhere inside a segment with entry values incl. ones whose sum carries into the top byte / wraps, .stack, .symtab/.strtab; loaded by the real elf::load into a fresh Cpu; all non-zero 64-byte DRAM blocks below the image end, the last one cut at the exact image end (and that no other array changed) compared with Model (exact) and Spec (expected image). distinct non-trivial = distinct files.',
+        'assumptions': ['structurally valid files only (the statement\'s domain); truncated / malformed files are out of scope of C11 and make the loader return an error or panic',
+                        'p_paddr is free but not below p_vaddr: the loader places the process environment (C12) from the highest p_paddr extent, which then cannot land on the image'],
     },
     'C12': {
         'lean': ['H8.Props.C12'],
